@@ -299,6 +299,109 @@ def bang_indexer_arms(src, tmap):
     return toks
 
 
+# ---------------------------------------------------------------------------------------------------------------------
+# Tables that a maintainer may move to another file, rename, or rewrite from a `match` into a static list: they are looked up
+# (1) by name where they used to be, (2) by name anywhere in the crate, (3) by content: a table of the same shape whose content
+# equals the content recorded for the tree the models were written against (translator/tables_baseline.json) is that table
+# under a new name.  A table that is renamed AND changed is not found (the extraction fails, which is reported).
+def crate_sources(crate):
+    import glob as _glob
+    root = os.path.join(REPO, "crates", crate, "src")
+    out = []
+    for f in sorted(_glob.glob(os.path.join(root, "**", "*.rs"), recursive=True)):
+        with open(f, encoding="utf-8") as fh:
+            out.append((os.path.relpath(f, root), strip_comments(fh.read())))
+    return out
+
+
+def _baseline():
+    try:
+        with open(os.path.join(os.path.dirname(os.path.abspath(__file__)), "tables_baseline.json"), encoding="utf-8") as f:
+            return json.load(f)
+    except Exception:
+        return {}
+
+
+def _arrays(srcs, elem_pat):
+    """(file, name, body) of every `const|static NAME: [ELEM; N] = [..]` / `&[ELEM] = &[..]`"""
+    out = []
+    pat = re.compile(r"(?:const|static)\s+([A-Za-z_][A-Za-z0-9_]*)\s*:\s*&?\s*\[\s*%s\s*(?:;\s*\d+\s*)?\]\s*=\s*&?\s*\[" % elem_pat)
+    for rel, src in srcs:
+        for m in pat.finditer(src):
+            i = m.end() - 1
+            j = balanced(src, i, "[", "]")
+            out.append((rel, m.group(1), src[i + 1:j - 1]))
+    return out
+
+
+def find_tok_table(srcs, name, key, tmap, prefer=None):
+    arrs = [(rel, n, [resolve_tok(x, tmap) for x in split_top(body)]) for rel, n, body in _arrays(srcs, r"TokenKind")]
+    named = [a for a in arrs if a[1] == name]
+    if prefer:
+        named.sort(key=lambda a: a[0] != prefer)
+    if named:
+        return named[0][2]
+    want = _baseline().get(key)
+    same = [a for a in arrs if want is not None and a[2] == want]
+    if same:
+        return same[0][2]
+    raise ExtractError("table %s (%s) not found by name or by content" % (name, key))
+
+
+def find_str_table(srcs, name, key, prefer=None):
+    arrs = [(rel, n, re.findall(r'"([^"]*)"', body)) for rel, n, body in _arrays(srcs, r"&(?:'static\s+)?str")]
+    named = [a for a in arrs if a[1] == name]
+    if prefer:
+        named.sort(key=lambda a: a[0] != prefer)
+    if named:
+        return named[0][2]
+    want = _baseline().get(key)
+    same = [a for a in arrs if want is not None and a[2] == want]
+    if same:
+        return same[0][2]
+    raise ExtractError("table %s (%s) not found by name or by content" % (name, key))
+
+
+def str_arms_or_table(src, fn_name, key, tmap):
+    """the `"x" => T![y]` arms of `match ident` in fn_name, or - when the match has been rewritten as a lookup - the static list
+    of ("x", T![y]) pairs that the function names (or whose content is the recorded one)"""
+    try:
+        return str_arms(src, fn_name, tmap)
+    except ExtractError as e:
+        first = e
+    pairs = []
+    for rel, n, body in _arrays([("", src)], r"\(\s*&(?:'static\s+)?str\s*,\s*TokenKind\s*\)"):
+        arms = [(m.group(1), resolve_tok(m.group(2), tmap)) for m in
+                re.finditer(r'\(\s*"([^"]*)"\s*,\s*(T!\[[^\]]+\]|TokenKind::[A-Za-z0-9_]+)\s*\)', body)]
+        pairs.append((n, arms))
+    try:
+        fbody = region_after(src, r"fn %s\(&mut self[^)]*\)\s*->\s*TokenKind\s*\{" % fn_name)
+    except ExtractError:
+        fbody = ""
+    used = [a for n, a in pairs if re.search(r"\b%s\b" % re.escape(n), fbody)]
+    if len(used) == 1:
+        return used[0]
+    want = _baseline().get(key)
+    same = [a for n, a in pairs if want is not None and [list(x) for x in a] == want]
+    if same:
+        return same[0]
+    raise first
+
+
+def folding_kinds_any(src):
+    try:
+        return folding_kinds(src)
+    except ExtractError as e:
+        first = e
+    arrs = _arrays([("", src)], r"SyntaxKind")
+    if len(arrs) == 1:
+        return re.findall(r"SyntaxKind::([A-Za-z0-9_]+)", arrs[0][2])
+    m = re.search(r"matches!\(\s*node\.kind\(\)\s*,([^)]*)\)", src)
+    if m:
+        return re.findall(r"SyntaxKind::([A-Za-z0-9_]+)", m.group(1))
+    raise first
+
+
 def extract():
     tk_src = strip_comments(read("crates/syntax/src/token_kind.rs"))
     sk_src = strip_comments(read("crates/syntax/src/syntax_kind.rs"))
@@ -326,12 +429,14 @@ def extract():
     missing = [k for k in t["token_kinds"] if k not in t["tok_to_syntax"]]
     if missing:
         raise ExtractError("tok_to_syntax misses %s" % missing)
-    t["keywords"] = str_arms(lx_src, "identifier", tmap)
-    t["bang_table"] = str_arms(lx_src, "bangoperator", tmap)
-    t["prep_table"] = str_arms(lx_src, "preprocessor", tmap)
-    t["recover_tokens"] = const_tok_array(gr_src, "RECOVER_TOKENS", tmap)
-    t["value_start"] = const_tok_array(va_src, "VALUE_START", tmap)
-    t["type_first"] = const_tok_array(ty_src, "TYPE_FIRST_TOKENS", tmap)
+    t["keywords"] = str_arms_or_table(lx_src, "identifier", "keywords", tmap)
+    t["bang_table"] = str_arms_or_table(lx_src, "bangoperator", "bang_table", tmap)
+    t["prep_table"] = str_arms_or_table(lx_src, "preprocessor", "prep_table", tmap)
+    syn_srcs = crate_sources("syntax")
+    ide_srcs = crate_sources("ide")
+    t["recover_tokens"] = find_tok_table(syn_srcs, "RECOVER_TOKENS", "recover_tokens", tmap, prefer="grammar.rs")
+    t["value_start"] = find_tok_table(syn_srcs, "VALUE_START", "value_start", tmap, prefer="grammar/value.rs")
+    t["type_first"] = find_tok_table(syn_srcs, "TYPE_FIRST_TOKENS", "type_first", tmap, prefer="grammar/type.rs")
     t["statement_arms"] = match_peek_arms(st_src, "statement", tmap)
     t["mc_statement_arms"] = match_peek_arms(st_src, "multi_class_statement", tmap)
     t["type_arms"] = match_peek_arms(ty_src, "type", tmap)
@@ -344,12 +449,12 @@ def extract():
     import glob as _glob
     ide_files = ["crates/ide/src/index.rs"] + sorted(os.path.relpath(x, REPO) for x in _glob.glob(os.path.join(REPO, "crates/ide/src/index/*.rs")))
     t["ide_messages"] = ide_messages([(os.path.basename(f), strip_comments(read(f))) for f in ide_files])
-    t["compl_toplevel"] = const_str_array(co_src, "TOPLEVEL_KEYWORDS")
-    t["compl_types"] = const_str_array(co_src, "PRIMITIVE_TYPES")
+    t["compl_toplevel"] = find_str_table(ide_srcs, "TOPLEVEL_KEYWORDS", "compl_toplevel", prefer="handlers/completion.rs")
+    t["compl_types"] = find_str_table(ide_srcs, "PRIMITIVE_TYPES", "compl_types", prefer="handlers/completion.rs")
     t["compl_snippet_types"] = re.findall(r'new_snippet\(\s*"([a-z]+)"\s*,\s*"[^"]*"', co_src)
-    t["compl_values"] = const_str_array(co_src, "BOOLEAN_VALUES")
-    t["compl_bang"] = const_str_array(co_src, "BANG_OPERATORS")
-    t["folding_kinds"] = folding_kinds(fo_src)
+    t["compl_values"] = find_str_table(ide_srcs, "BOOLEAN_VALUES", "compl_values", prefer="handlers/completion.rs")
+    t["compl_bang"] = find_str_table(ide_srcs, "BANG_OPERATORS", "compl_bang", prefer="handlers/completion.rs")
+    t["folding_kinds"] = folding_kinds_any(fo_src)
     t["bang_indexer_arms"] = bang_indexer_arms(bo_src, tmap)
     return t
 
